@@ -76,6 +76,11 @@ impl KeyRing {
             };
             plutus.push(PlutusScript::new_with_version(bytes, &lang));
         }
+        // the same compiled program under another language version is another script (another hash)
+        let twin_a = PlutusScript::new_with_version(plutus[0].bytes(), &Language::new_plutus_v2());
+        let twin_b = PlutusScript::new_with_version(plutus[1].bytes(), &Language::new_plutus_v3());
+        plutus.push(twin_a);
+        plutus.push(twin_b);
         KeyRing { keys, byron, natives, plutus }
     }
     pub fn find_key(&self, hash: &[u8]) -> Option<&KeyEnt> {
@@ -142,11 +147,13 @@ pub struct Focus {
     pub small_limits: u64, // tiny max_value_size / max_tx_size
     pub collateral_helpers: u64,
     pub many_assets: u64,
+    /// force this maximum transaction size (the "squeeze" workload of C07)
+    pub max_tx_size: Option<u64>,
 }
 
 impl Default for Focus {
     fn default() -> Focus {
-        Focus { plutus: 5, scripts: 4, certs: 6, withdrawals: 5, votes: 3, proposals: 3, mint: 5, assets: 6, byron: 3, refs: 4, overlap: 6, coin_select: 6, small_limits: 3, collateral_helpers: 4, many_assets: 2 }
+        Focus { plutus: 5, scripts: 4, certs: 6, withdrawals: 5, votes: 3, proposals: 3, mint: 5, assets: 6, byron: 3, refs: 4, overlap: 6, coin_select: 6, small_limits: 3, collateral_helpers: 4, many_assets: 2, max_tx_size: None }
     }
 }
 
@@ -504,7 +511,10 @@ pub fn gen_params(r: &mut Rng, f: &Focus) -> Params {
         pool_deposit: *r.pick(&[500_000_000u64, 0, 1_000_000]),
         coins_per_byte: cpb,
         max_value_size: if small { 100 + r.below(400) } else { 5000 },
-        max_tx_size: if small && r.bool() { 600 + r.below(3000) } else { 16_384 },
+        max_tx_size: {
+            let m = if small && r.bool() { 600 + r.below(3000) } else { 16_384 };
+            f.max_tx_size.unwrap_or(m)
+        },
         ex_prices: Some(((577, 10_000), (721, 10_000_000))),
         ref_script_price: Some(*r.pick(&[(15u64, 1u64), (0, 1), (1, 3)])),
     }
